@@ -319,6 +319,9 @@ V("CS1-benign-manual-counter-all-paths", "C04", None,
    "        segment_index = start_segment - 1\n        values_read = 0\n        for segment in self._segments[start_segment:end_segment + 1]:\n            segment_index += 1\n"))
 V("ES1-enumerate-from-zero", "C04", "ES1",
   ("reader.py", "enumerate(self._segments[start_segment:end_segment + 1], start_segment):", "enumerate(self._segments[start_segment:end_segment + 1]):"))
+V("CS1-counter-incremented-twice", "C04", "CS1",
+  ("reader.py", "        for segment_index, segment in enumerate(self._segments[start_segment:end_segment + 1], start_segment):\n            self._verify_segment_start(segment)\n",
+   "        segment_index = start_segment - 1\n        for segment in self._segments[start_segment:end_segment + 1]:\n            segment_index += 1\n            self._verify_segment_start(segment)\n            if segment.num_chunks == 0:\n                segment_index += 1\n                continue\n"))
 V("CS2-scaler-sliced-differently", "C04", "CS2",
   ("reader.py", "            scale_id: d[skip:len(d) - trim]\n", "            scale_id: d[skip:len(d)]\n"))
 V("NT1-length-truthiness", "C04", "NT1",
